@@ -595,6 +595,12 @@ class Decorator(Unit):
         r = I.call(dec, cb)
         I.call(I.getattr_(b, 'register_packet_listener'), cb, *types_, **kw)
         E.check('decorator.returns-function', r is cb)
+        # a decorator object is a value: applying it to a second function registers that one with the SAME types and flags
+        # (seeded change C13-r16: the first application consumed the flags out of the shared keyword dict)
+        cb2 = lambda p: None
+        r2 = I.call(dec, cb2)
+        I.call(I.getattr_(b, 'register_packet_listener'), cb2, *types_, **kw)
+        E.check('decorator.returns-function[second application]', r2 is cb2)
         for n in names:
             la, lb = a.__dict__[n], b.__dict__[n]
             same = len(la) == len(lb) and all(x is y or (isinstance(x, PacketListener) and isinstance(y, PacketListener) and
@@ -605,7 +611,31 @@ class Decorator(Unit):
         return None
 
     def replay(self, model, label):
-        return replay_register()
+        rp = replay_decorator_twice()
+        return rp if rp['confirmed'] else replay_register()
+
+    def bounded(self, rng, tier):
+        rp = replay_decorator_twice()
+        return dict(name='C13.decorator.applied-twice', evaluations=rp['n'], bound='one decorator object per flag combination, applied to two functions',
+                    failures=[dict(call=rp['call'], observed=rp['observed'], witness='decorator-twice')] if rp['confirmed'] else [])
+
+
+def replay_decorator_twice():
+    n = 0
+    names = ('packet_listeners', 'early_packet_listeners', 'outgoing_packet_listeners', 'early_outgoing_packet_listeners')
+    for early in (False, True):
+        for outgoing in (False, True):
+            n += 1
+            c = Connection('h', 1, username='u', allowed_versions={757})
+            dec = c.listener(PA, early=early, outgoing=outgoing)
+            f, g = (lambda p: None), (lambda p: None)
+            dec(f)
+            dec(g)
+            where = dict((cb, [nm for nm in names for l in getattr(c, nm) if l.callback is cb]) for cb in (f, g))
+            if where[f] != where[g] or len(where[f]) != 1:
+                return dict(confirmed=True, n=n, call='d = connection.listener(P, early=%r, outgoing=%r); d(f); d(g)' % (early, outgoing),
+                            observed='f is registered in %r, g in %r' % (where[f], where[g]))
+    return dict(confirmed=False, n=n, call='a listener decorator applied to two functions', observed='conforms')
 
 
 def all_packet_classes():
